@@ -504,6 +504,24 @@ func c05Case(w *core.Worker, i int) {
 	if len(steps) > 0 && steps[len(steps)-1].snap == nil {
 		steps[len(steps)-1].snap = snapAll()
 	}
+	// some statements run inside a nested block (IF / WHILE / user function): the change must land in the table itself,
+	// not in something that disappears with the block
+	for k := range steps {
+		switch r.Intn(10) {
+		case 0:
+			steps[k].sql = "IF 1 = 1 THEN " + steps[k].sql + " END IF;"
+			steps[k].count = -1 // the harness reads the count from the transaction after the outermost statement; a block statement resets it
+			w.Count("statements_inside_a_block", 1)
+		case 1:
+			steps[k].sql = "VAR @w := 0; WHILE @w < 1 DO @w := @w + 1; " + steps[k].sql + " END WHILE; DISPOSE @w;"
+			steps[k].count = -1
+			w.Count("statements_inside_a_block", 1)
+		case 2:
+			steps[k].sql = fmt.Sprintf("DECLARE fw%d FUNCTION () AS BEGIN %s RETURN 1; END; VAR @fw%d := fw%d();", k, steps[k].sql, k, k)
+			steps[k].count = -1
+			w.Count("statements_inside_a_block", 1)
+		}
+	}
 	var sqls []string
 	changed := 0
 	for _, st := range steps {
